@@ -17,44 +17,114 @@ import (
 
 var modeNames = []string{"base", "verifiable", "partial"}
 
-// party wraps the three client/server flavours behind one interface.
+// party wraps the three client/server flavours behind one interface. With persist set, ONE
+// client object and ONE server object serve every call of the case (object reuse: anything a
+// client or server remembers between calls must not change results); otherwise every call
+// builds a fresh object. Clients for another public key are always fresh.
 type party struct {
-	si   suiteInfo
-	mode byte
-	sk   *oprf.PrivateKey
-	pk   *oprf.PublicKey
+	si      suiteInfo
+	mode    byte
+	sk      *oprf.PrivateKey
+	pk      *oprf.PublicKey
+	persist bool
+	c0      *oprf.Client
+	c1      *oprf.VerifiableClient
+	c2      *oprf.PartialObliviousClient
+	s0      *oprf.Server
+	s1      *oprf.VerifiableServer
+	s2      *oprf.PartialObliviousServer
+}
+
+func newParty(si suiteInfo, mode byte, sk *oprf.PrivateKey, pk *oprf.PublicKey, persist bool) party {
+	p := party{si: si, mode: mode, sk: sk, pk: pk, persist: persist}
+	if persist {
+		switch mode {
+		case 0:
+			c, s := oprf.NewClient(si.suite), oprf.NewServer(si.suite, sk)
+			p.c0, p.s0 = &c, &s
+		case 1:
+			c, s := oprf.NewVerifiableClient(si.suite, pk), oprf.NewVerifiableServer(si.suite, sk)
+			p.c1, p.s1 = &c, &s
+		default:
+			c, s := oprf.NewPartialObliviousClient(si.suite, pk), oprf.NewPartialObliviousServer(si.suite, sk)
+			p.c2, p.s2 = &c, &s
+		}
+	}
+	return p
+}
+
+func (p party) cl0() oprf.Client {
+	if p.persist {
+		return *p.c0
+	}
+	return oprf.NewClient(p.si.suite)
+}
+
+func (p party) cl1(pk *oprf.PublicKey) oprf.VerifiableClient {
+	if p.persist && pk == p.pk {
+		return *p.c1
+	}
+	return oprf.NewVerifiableClient(p.si.suite, pk)
+}
+
+func (p party) cl2(pk *oprf.PublicKey) oprf.PartialObliviousClient {
+	if p.persist && pk == p.pk {
+		return *p.c2
+	}
+	return oprf.NewPartialObliviousClient(p.si.suite, pk)
+}
+
+func (p party) sv0() oprf.Server {
+	if p.persist {
+		return *p.s0
+	}
+	return oprf.NewServer(p.si.suite, p.sk)
+}
+
+func (p party) sv1() oprf.VerifiableServer {
+	if p.persist {
+		return *p.s1
+	}
+	return oprf.NewVerifiableServer(p.si.suite, p.sk)
+}
+
+func (p party) sv2() oprf.PartialObliviousServer {
+	if p.persist {
+		return *p.s2
+	}
+	return oprf.NewPartialObliviousServer(p.si.suite, p.sk)
 }
 
 func (p party) blindDet(pk *oprf.PublicKey, inputs [][]byte, blinds []oprf.Blind) (*oprf.FinalizeData, *oprf.EvaluationRequest, error) {
 	switch p.mode {
 	case 0:
-		return oprf.NewClient(p.si.suite).DeterministicBlind(inputs, blinds)
+		return p.cl0().DeterministicBlind(inputs, blinds)
 	case 1:
-		return oprf.NewVerifiableClient(p.si.suite, pk).DeterministicBlind(inputs, blinds)
+		return p.cl1(pk).DeterministicBlind(inputs, blinds)
 	default:
-		return oprf.NewPartialObliviousClient(p.si.suite, pk).DeterministicBlind(inputs, blinds)
+		return p.cl2(pk).DeterministicBlind(inputs, blinds)
 	}
 }
 
 func (p party) blindRand(inputs [][]byte) (*oprf.FinalizeData, *oprf.EvaluationRequest, error) {
 	switch p.mode {
 	case 0:
-		return oprf.NewClient(p.si.suite).Blind(inputs)
+		return p.cl0().Blind(inputs)
 	case 1:
-		return oprf.NewVerifiableClient(p.si.suite, p.pk).Blind(inputs)
+		return p.cl1(p.pk).Blind(inputs)
 	default:
-		return oprf.NewPartialObliviousClient(p.si.suite, p.pk).Blind(inputs)
+		return p.cl2(p.pk).Blind(inputs)
 	}
 }
 
 func (p party) evaluate(req *oprf.EvaluationRequest, info []byte) (*oprf.Evaluation, error) {
 	switch p.mode {
 	case 0:
-		return oprf.NewServer(p.si.suite, p.sk).Evaluate(req)
+		return p.sv0().Evaluate(req)
 	case 1:
-		return oprf.NewVerifiableServer(p.si.suite, p.sk).Evaluate(req)
+		return p.sv1().Evaluate(req)
 	default:
-		return oprf.NewPartialObliviousServer(p.si.suite, p.sk).Evaluate(req, info)
+		return p.sv2().Evaluate(req, info)
 	}
 }
 
@@ -62,43 +132,52 @@ func (p party) evaluate(req *oprf.EvaluationRequest, info []byte) (*oprf.Evaluat
 func (p party) finalize(pk *oprf.PublicKey, fd *oprf.FinalizeData, ev *oprf.Evaluation, info []byte) ([][]byte, error) {
 	switch p.mode {
 	case 0:
-		return oprf.NewClient(p.si.suite).Finalize(fd, ev)
+		return p.cl0().Finalize(fd, ev)
 	case 1:
-		return oprf.NewVerifiableClient(p.si.suite, pk).Finalize(fd, ev)
+		return p.cl1(pk).Finalize(fd, ev)
 	default:
-		return oprf.NewPartialObliviousClient(p.si.suite, pk).Finalize(fd, ev, info)
+		return p.cl2(pk).Finalize(fd, ev, info)
 	}
 }
 
 func (p party) fullEvaluate(input, info []byte) ([]byte, error) {
 	switch p.mode {
 	case 0:
-		return oprf.NewServer(p.si.suite, p.sk).FullEvaluate(input)
+		return p.sv0().FullEvaluate(input)
 	case 1:
-		return oprf.NewVerifiableServer(p.si.suite, p.sk).FullEvaluate(input)
+		return p.sv1().FullEvaluate(input)
 	default:
-		return oprf.NewPartialObliviousServer(p.si.suite, p.sk).FullEvaluate(input, info)
+		return p.sv2().FullEvaluate(input, info)
 	}
 }
 
 func (p party) verifyFinalize(input, info, out []byte) bool {
 	switch p.mode {
 	case 0:
-		return oprf.NewServer(p.si.suite, p.sk).VerifyFinalize(input, out)
+		return p.sv0().VerifyFinalize(input, out)
 	case 1:
-		return oprf.NewVerifiableServer(p.si.suite, p.sk).VerifyFinalize(input, out)
+		return p.sv1().VerifyFinalize(input, out)
 	default:
-		return oprf.NewPartialObliviousServer(p.si.suite, p.sk).VerifyFinalize(input, info, out)
+		return p.sv2().VerifyFinalize(input, info, out)
 	}
 }
+
+// boundaryLens are lengths at which a one- or two-byte length prefix changes shape.
+var boundaryLens = []int{255, 256, 257}
 
 var inputLens = []int{0, 1, 100, 1000}
 
 func drawInput(t *rapid.T, label string) []byte {
 	var n int
-	if rapid.IntRange(0, 4).Draw(t, label+".lk") == 0 {
+	switch rapid.IntRange(0, 7).Draw(t, label+".lk") {
+	case 0:
 		n = rapid.IntRange(0, 300).Draw(t, label+".len")
-	} else {
+	case 1:
+		n = rapid.SampledFrom(boundaryLens).Draw(t, label+".len")
+		if rapid.IntRange(0, 12).Draw(t, label+".max") == 0 {
+			n = 65535 // the longest input RFC 9497 allows
+		}
+	default:
 		n = rapid.SampledFrom(inputLens).Draw(t, label+".len")
 	}
 	b := make([]byte, n)
@@ -114,7 +193,7 @@ func drawInfo(t *rapid.T, label string) []byte {
 		vlib.FillRandom(t, b, label)
 		return b
 	}
-	switch rapid.IntRange(0, 6).Draw(t, label+".ik") {
+	switch rapid.IntRange(0, 7).Draw(t, label+".ik") {
 	case 0:
 		return []byte{}
 	case 1:
@@ -123,6 +202,10 @@ func drawInfo(t *rapid.T, label string) []byte {
 		return vlib.Bytes(t, 1, 3, label)
 	case 5:
 		return []byte{rapid.Byte().Draw(t, label+".b")}
+	case 6:
+		b := make([]byte, rapid.SampledFrom(boundaryLens).Draw(t, label+".bl"))
+		vlib.FillRandom(t, b, label)
+		return b
 	case 3:
 		return vlib.Bytes(t, 200, 300, label)
 	default:
@@ -161,7 +244,8 @@ func oprfCase(t *rapid.T, si suiteInfo, mode byte) {
 	switch rapid.SampledFrom([]string{"derive", "derive", "random", "random", "edge"}).Draw(t, "keyKind") {
 	case "derive":
 		seed := vlib.EdgeBytes(t, 32, "seed")
-		kinfo := vlib.Bytes(t, 0, 20, "keyInfo")
+		kinfo := drawInfo(t, "keyInfo") // lengths 0, 1, …, 255/256/257, 65535
+		vlib.Class(sub, "keyinfolen="+lenClass(len(kinfo)))
 		sk, err = oprf.DeriveKey(si.suite, mode, seed, kinfo)
 		if err != nil {
 			t.Fatalf("DeriveKey: %v", err)
@@ -264,7 +348,11 @@ func oprfCase(t *rapid.T, si suiteInfo, mode byte) {
 			return
 		}
 	}
-	p := party{si: si, mode: mode, sk: sk, pk: clientPK}
+	persist := rapid.Bool().Draw(t, "persistObjects")
+	if persist {
+		vlib.Class(sub, "one-client-and-server-object-for-the-whole-case")
+	}
+	p := newParty(si, mode, sk, clientPK, persist)
 
 	// ---- inputs, info, blinds
 	n := rapid.SampledFrom([]int{1, 1, 2, 3, 4, 5}).Draw(t, "batch")
@@ -466,6 +554,10 @@ func oprfCase(t *rapid.T, si suiteInfo, mode byte) {
 	}
 	vlib.Sample(sub, "honest", desc+" → outputs equal reference, FullEvaluate and a second blind vector")
 
+	if rapid.Bool().Draw(t, "bufferReuse") && !bufferReuse(t, si, mode, sk, clientPK, skRef, ref, desc) {
+		return
+	}
+
 	if mode == 0 {
 		return
 	}
@@ -549,6 +641,115 @@ func oprfCase(t *rapid.T, si suiteInfo, mode byte) {
 	}
 }
 
+// bufferReuse: one client object and one server object; every []byte (and scalar) handed to
+// them is overwritten IN PLACE by the caller after the call and handed in again with new
+// contents. Results must be those of fresh objects, i.e. of the reference: a client or server
+// may not remember a caller's buffer, nor anything derived from its former contents.
+func bufferReuse(t *rapid.T, si suiteInfo, mode byte, sk *oprf.PrivateKey, pk *oprf.PublicKey, skRef group.Scalar, ref refSuite, desc string) bool {
+	g := si.g
+	mname := modeNames[mode]
+	sub := "oprf-buffer-reuse/" + si.name + "/" + mname
+	key := func(k string) string { return "C16/oprf-buffer-reuse/" + si.name + "/" + mname + "/" + k }
+	pp := newParty(si, mode, sk, pk, true)
+	vlib.Eval(sub)
+	n := rapid.IntRange(1, 2).Draw(t, "brN")
+	inputs := make([][]byte, n)
+	blinds := make([]oprf.Blind, n)
+	for i := range inputs {
+		inputs[i] = vlib.Bytes(t, 1, 32, fmt.Sprintf("brIn%d", i))
+		blinds[i], _ = si.drawScalar(t, true, fmt.Sprintf("brB%d", i))
+	}
+	var info []byte
+	if mode == 2 {
+		if rapid.IntRange(0, 5).Draw(t, "brInfoBoundary") == 0 {
+			info = make([]byte, rapid.SampledFrom(boundaryLens).Draw(t, "brInfoLen"))
+			vlib.FillRandom(t, info, "brInfo")
+		} else {
+			info = vlib.Bytes(t, 1, 24, "brInfo")
+		}
+	}
+	want := func(i int) []byte {
+		o, _ := ref.evaluate(skRef, inputs[i], info)
+		return o
+	}
+	run := func(what string, req *oprf.EvaluationRequest, fd *oprf.FinalizeData) (*oprf.Evaluation, bool) {
+		ev, err := pp.evaluate(req, info)
+		if err != nil {
+			vlib.Report(t, key(what+"/evaluate-error"), fmt.Sprintf("%s BUFFER REUSE %s inputs=%s info=%x: %v", desc, what, hxList(inputs), info, err))
+			return nil, false
+		}
+		out, err := pp.finalize(pk, fd, ev, info)
+		if err != nil {
+			vlib.Report(t, key(what+"/finalize-error"), fmt.Sprintf("%s BUFFER REUSE %s inputs=%s info=%x: honest evaluation refused: %v", desc, what, hxList(inputs), info, err))
+			return nil, false
+		}
+		for i := range inputs {
+			full, ferr := pp.fullEvaluate(inputs[i], info)
+			if !bytes.Equal(out[i], want(i)) || ferr != nil || !bytes.Equal(full, want(i)) {
+				vlib.Report(t, key(what+"/output"), fmt.Sprintf("%s BUFFER REUSE %s inputs=%s info=%x: output[%d]=%x FullEvaluate=%x reference=%x", desc, what, hxList(inputs), info, i, out[i], full, want(i)))
+				return nil, false
+			}
+		}
+		return ev, true
+	}
+	fd1, req1, err := pp.blindDet(pk, inputs, blinds)
+	if err != nil {
+		vlib.Report(t, key("blind-error"), fmt.Sprintf("%s: %v", desc, err))
+		return false
+	}
+	ev1, ok := run("first-run", req1, fd1)
+	if !ok {
+		return false
+	}
+	if mode == 2 {
+		old := append([]byte{}, info...)
+		// the caller rewrites its info buffer in place (same length, other contents)
+		vlib.FillRandom(t, info, "brInfo2")
+		if bytes.Equal(info, old) {
+			info[0] ^= 1
+		}
+		vlib.Class(sub, "info-buffer-overwritten-in-place")
+		if _, err := pp.finalize(pk, fd1, ev1, info); err == nil {
+			vlib.Report(t, key("stale-info-accepted"), fmt.Sprintf("%s BUFFER REUSE: evaluation made for info=%x accepted by Finalize with info=%x (same buffer rewritten in place)", desc, old, info))
+			return false
+		}
+		if _, ok := run("info-rewritten", req1, fd1); !ok {
+			return false
+		}
+		copy(info, old)
+		if _, ok := run("info-restored", req1, fd1); !ok {
+			return false
+		}
+		vlib.NonTrivial(sub, "", []byte(desc), old, info, []byte("info"))
+	}
+	// the caller rewrites its input buffers and blind scalars in place and starts a new run
+	for i := range inputs {
+		vlib.FillRandom(t, inputs[i], fmt.Sprintf("brIn2_%d", i))
+		nb, _ := si.drawScalar(t, true, fmt.Sprintf("brB2_%d", i))
+		blinds[i].Set(nb)
+	}
+	vlib.Class(sub, "input-and-blind-buffers-overwritten-in-place")
+	fd2, req2, err := pp.blindDet(pk, inputs, blinds)
+	if err != nil {
+		vlib.Report(t, key("blind-error"), fmt.Sprintf("%s: %v", desc, err))
+		return false
+	}
+	for i := range inputs {
+		e, ok := ref.blind(inputs[i], blinds[i])
+		if !ok || !bytes.Equal(ser(e), ser(req2.Elements[i])) {
+			vlib.Report(t, key("second-run/blinded"), fmt.Sprintf("%s BUFFER REUSE inputs=%s: blinded[%d]=%x reference=%x", desc, hxList(inputs), i, ser(req2.Elements[i]), ser(e)))
+			return false
+		}
+	}
+	if _, ok := run("second-run", req2, fd2); !ok {
+		return false
+	}
+	vlib.NonTrivial(sub, "", []byte(desc), elemsBytes(req2.Elements), []byte("inputs"))
+	vlib.Sample(sub, "reuse", fmt.Sprintf("%s BUFFER REUSE inputs=%s info=%x → as fresh objects", desc, hxList(inputs), info))
+	_ = g
+	return true
+}
+
 func lenClass(n int) string {
 	switch {
 	case n == 0:
@@ -559,10 +760,14 @@ func lenClass(n int) string {
 		return "2..99"
 	case n == 100:
 		return "100"
+	case n >= 255 && n <= 257:
+		return fmt.Sprintf("%d", n)
 	case n < 1000:
 		return "101..999"
 	case n == 1000:
 		return "1000"
+	case n == 65535:
+		return "65535"
 	default:
 		return ">1000"
 	}
@@ -919,13 +1124,92 @@ func alterOnce(t *rapid.T, p party, ref refSuite, lbl, desc string, clientPK *op
 	}
 }
 
+// TestC16Lengths: the cheap entry points (DeriveKey, FullEvaluate) against the RFC 9497
+// reference with every length-prefixed field at the boundaries of its one- and two-byte
+// prefixes (0, 1, 255, 256, 257, 65535), in every suite and mode. The full protocol runs of
+// TestC16OPRF draw the same lengths, but too rarely in the expensive suites.
+func TestC16Lengths(t *testing.T) {
+	defer vlib.Done()
+	lens := []int{0, 1, 2, 31, 32, 33, 254, 255, 256, 257, 258, 511, 512, 513, 1000, 65534, 65535}
+	drawLen := func(t *rapid.T, label string) []byte {
+		n := rapid.SampledFrom(lens).Draw(t, label+".len")
+		if n > 60000 && rapid.IntRange(0, 3).Draw(t, label+".rare") != 0 {
+			n = rapid.SampledFrom([]int{255, 256, 257}).Draw(t, label+".len2")
+		}
+		b := make([]byte, n)
+		if n > 0 {
+			vlib.FillRandom(t, b, label)
+		}
+		return b
+	}
+	for _, si := range allSuites {
+		for mode := byte(0); mode < 3; mode++ {
+			si, mode := si, mode
+			t.Run(si.name+"/"+modeNames[mode], func(t *testing.T) {
+				sub := "oprf-lengths/" + si.name + "/" + modeNames[mode]
+				key := func(k string) string { return "C16/oprf-lengths/" + si.name + "/" + modeNames[mode] + "/" + k }
+				ref := refSuite{id: si.name, g: si.g, h: si.h, mode: mode}
+				vlib.Check(t, vlib.N(40, 400), func(t *rapid.T) {
+					vlib.Eval(sub)
+					seed := vlib.EdgeBytes(t, 32, "seed")
+					kinfo := drawLen(t, "keyInfo")
+					vlib.Class(sub, "keyinfolen="+lenClass(len(kinfo)))
+					sk, err := oprf.DeriveKey(si.suite, mode, seed, kinfo)
+					if err != nil {
+						vlib.Report(t, key("DeriveKey-error"), fmt.Sprintf("seed=%x |info|=%d: %v", seed, len(kinfo), err))
+						return
+					}
+					want, rerr := ref.deriveKey(seed, kinfo)
+					got, _ := sk.MarshalBinary()
+					if rerr != nil || !bytes.Equal(got, serS(want)) {
+						vlib.Report(t, key("DeriveKey-differs-from-RFC9497"), fmt.Sprintf("seed=%x |info|=%d info=%s circl=%x reference=%x", seed, len(kinfo), hxs(kinfo), got, serS(want)))
+						return
+					}
+					// a seed of another length is refused (the function is documented for 32-byte seeds)
+					bad := vlib.Bytes(t, 0, 64, "badSeed")
+					if len(bad) != 32 {
+						if k2, err := oprf.DeriveKey(si.suite, mode, bad, kinfo); err == nil && k2 != nil {
+							vlib.Class(sub, "seed of another length accepted (not asserted)")
+						} else {
+							vlib.Class(sub, "seed of another length refused")
+						}
+					}
+					input := drawLen(t, "input")
+					var info []byte
+					if mode == 2 {
+						info = drawLen(t, "info")
+						vlib.Class(sub, "infolen="+lenClass(len(info)))
+					}
+					vlib.Class(sub, "inputlen="+lenClass(len(input)))
+					p := newParty(si, mode, sk, sk.Public(), false)
+					full, err := p.fullEvaluate(input, info)
+					wantOut, ok := ref.evaluate(want, input, info)
+					if !ok {
+						return
+					}
+					if err != nil || !bytes.Equal(full, wantOut) {
+						vlib.Report(t, key("FullEvaluate-differs-from-RFC9497"), fmt.Sprintf("sk=%x |input|=%d |info|=%d input=%s info=%s: FullEvaluate=%x err=%v reference=%x", got, len(input), len(info), hxs(input), hxs(info), full, err, wantOut))
+						return
+					}
+					if !p.verifyFinalize(input, info, wantOut) {
+						vlib.Report(t, key("VerifyFinalize-false"), fmt.Sprintf("sk=%x |input|=%d |info|=%d", got, len(input), len(info)))
+						return
+					}
+					vlib.NonTrivial(sub, "", seed, kinfo, input, info)
+					vlib.Sample(sub, "lengths", fmt.Sprintf("suite=%s mode=%s |keyInfo|=%d |input|=%d |info|=%d → DeriveKey and FullEvaluate equal the reference", si.name, modeNames[mode], len(kinfo), len(input), len(info)))
+				})
+			})
+		}
+	}
+}
+
 func TestC16OPRF(t *testing.T) {
 	defer vlib.Done()
 	for _, si := range allSuites {
 		for mode := byte(0); mode < 3; mode++ {
 			si, mode := si, mode
 			t.Run(si.name+"/"+modeNames[mode], func(t *testing.T) {
-				n := si.cases([4]int{80, 80, 24, 11}, 4)
+				n := si.cases([4]int{70, 70, 20, 10}, 4)
 				if mode == 0 {
 					n = n * 2 / 3
 				}
